@@ -70,6 +70,7 @@ extern void cfg_scan_fp_end(void);
 
 static int cfg_parse_internal(cfg_t *cfg, int level, int force_state, cfg_opt_t *force_opt);
 static void cfg_free_opt_array(cfg_opt_t *opts);
+static int cfg_free_internal(cfg_t *cfg, int toplevel);
 static int cfg_print_pff_indent(cfg_t *cfg, FILE *fp,
 				cfg_print_filter_func_t fb_pff, int indent);
 
@@ -1112,7 +1113,7 @@ DLLIMPORT cfg_value_t *cfg_setopt(cfg_t *cfg, cfg_opt_t *opt, const char *value)
 			}
 
 			if (!is_set(CFGF_DEFINIT, opt->flags) && cfg_init_defaults(sec) != CFG_SUCCESS) {
-				cfg_free(sec);
+				cfg_free_internal(sec, 0);
 				return NULL;
 			}
 		}
@@ -1120,14 +1121,14 @@ DLLIMPORT cfg_value_t *cfg_setopt(cfg_t *cfg, cfg_opt_t *opt, const char *value)
 		val = cfg_setopt_slot(cfg, opt, value);
 		if (!val) {
 			if (sec)
-				cfg_free(sec);
+				cfg_free_internal(sec, 0);
 			return NULL;
 		}
 
 		if (sec) {
 			if (val->section) {
 				val->section->path = NULL; /* Global search path */
-				cfg_free(val->section);
+				cfg_free_internal(val->section, 0);
 			}
 			val->section = sec;
 		} else if (!is_set(CFGF_DEFINIT, opt->flags)) {
@@ -2038,7 +2039,7 @@ DLLIMPORT int cfg_free_value(cfg_opt_t *opt)
 				free((void *)opt->values[i]->string);
 			} else if (opt->type == CFGT_SEC) {
 				opt->values[i]->section->path = NULL; /* Global search path */
-				cfg_free(opt->values[i]->section);
+				cfg_free_internal(opt->values[i]->section, 0);
 			} else if (opt->type == CFGT_PTR && opt->freecb && opt->values[i]->ptr) {
 				(opt->freecb) (opt->values[i]->ptr);
 			}
@@ -2082,7 +2083,12 @@ static int cfg_free_searchpath(cfg_searchpath_t *p)
 	return CFG_SUCCESS;
 }
 
-DLLIMPORT int cfg_free(cfg_t *cfg)
+/* Release a context or a section.  Only the context returned by
+ * cfg_init() owns the scanner: sections released by the library itself
+ * (replaced, removed or dropped instances) never tear it down, whatever
+ * their name is.
+ */
+static int cfg_free_internal(cfg_t *cfg, int toplevel)
 {
 	int i;
 	int isroot = 0;
@@ -2102,7 +2108,7 @@ DLLIMPORT int cfg_free(cfg_t *cfg)
 	cfg_free_searchpath(cfg->path);
 
 	if (cfg->name) {
-		isroot = !strcmp(cfg->name, "root");
+		isroot = toplevel && !strcmp(cfg->name, "root");
 		free(cfg->name);
 	}
 	if (cfg->title)
@@ -2115,6 +2121,11 @@ DLLIMPORT int cfg_free(cfg_t *cfg)
 		cfg_yylex_destroy();
 
 	return CFG_SUCCESS;
+}
+
+DLLIMPORT int cfg_free(cfg_t *cfg)
+{
+	return cfg_free_internal(cfg, 1);
 }
 
 DLLIMPORT int cfg_include(cfg_t *cfg, cfg_opt_t *opt, int argc, const char **argv)
@@ -2466,7 +2477,7 @@ DLLIMPORT int cfg_opt_rmnsec(cfg_opt_t *opt, unsigned int index)
 	--opt->nvalues;
 
 	val->section->path = NULL; /* Global search path, owned by the root */
-	cfg_free(val->section);
+	cfg_free_internal(val->section, 0);
 	free(val);
 
 	return CFG_SUCCESS;
